@@ -248,6 +248,7 @@ static int fiber_poll_events_internal(uint32_t seconds, uint32_t useconds) {
         assert(errno == EWOULDBLOCK || errno == EAGAIN);
         continue;
       }
+      FIBER_VERIF_POINT(FV_TIMER_READ, &timer_count, 0);
       fiber_event_wake_sleepers(manager, timer_count);
     } else {
       fd_wait_info_t* const info = &wait_info[the_fd];
